@@ -43,7 +43,9 @@ type ccScenario struct {
 
 type ccClient struct {
 	c      *sched.Client
+	idx    int // client index (0-based): process idx+1 of the X spec
 	waitID int
+	waitX  int // the X spec's id of the wait in flight: (idx+1)*100 + (op index+1)  (X-level trace validation)
 	op     ccOp
 	cancel context.CancelFunc
 	canc   bool
@@ -123,9 +125,10 @@ func (d *ccDriver) newID() int {
 	return d.nextID
 }
 
-func (d *ccDriver) opFunc(c *ccClient, op ccOp) sched.Op {
+func (d *ccDriver) opFunc(c *ccClient, pi int, op ccOp) sched.Op {
 	x := d.x
 	name := c.c.Name
+	xid := (c.idx+1)*100 + pi + 1 // the X spec's id of this call
 	label := "call:" + name
 	ve := -1
 	if op.Ve != nil {
@@ -135,33 +138,33 @@ func (d *ccDriver) opFunc(c *ccClient, op ccOp) sched.Op {
 	case "set":
 		return sched.Op{Label: label, Do: func() {
 			id := d.newID()
-			x.Log(trace.E{"ev": "call", "id": id, "op": "set", "v": op.V, "actor": name})
+			x.Log(trace.E{"ev": "call", "id": id, "xid": xid, "op": "set", "v": op.V, "actor": name})
 			d.ctr.SetValue(op.V)
-			x.Log(trace.E{"ev": "ret", "id": id, "res": "ok", "val": -1, "actor": name})
+			x.Log(trace.E{"ev": "ret", "id": id, "xid": xid, "res": "ok", "val": -1, "actor": name})
 		}}
 	case "swap":
 		return sched.Op{Label: label, Do: func() {
 			id := d.newID()
-			x.Log(trace.E{"ev": "call", "id": id, "op": "swap", "d": op.D, "actor": name})
+			x.Log(trace.E{"ev": "call", "id": id, "xid": xid, "op": "swap", "d": op.D, "actor": name})
 			val := d.ctr.SwapValue(func(v int) int {
 				// runs under the container's lock: only compute and log
 				out := v + op.D
-				x.Log(trace.E{"ev": "swapcb", "id": id, "in": v, "out": out})
+				x.Log(trace.E{"ev": "swapcb", "id": id, "xid": xid, "in": v, "out": out})
 				return out
 			})
-			x.Log(trace.E{"ev": "ret", "id": id, "res": "ok", "val": val, "actor": name})
+			x.Log(trace.E{"ev": "ret", "id": id, "xid": xid, "res": "ok", "val": val, "actor": name})
 		}}
 	case "swapnil", "get":
 		return sched.Op{Label: label, Do: func() {
 			id := d.newID()
-			x.Log(trace.E{"ev": "call", "id": id, "op": op.Op, "actor": name})
+			x.Log(trace.E{"ev": "call", "id": id, "xid": xid, "op": op.Op, "actor": name})
 			var val int
 			if op.Op == "get" {
 				val = d.ctr.GetValue()
 			} else {
 				val = d.ctr.SwapValue(nil)
 			}
-			x.Log(trace.E{"ev": "ret", "id": id, "res": "ok", "val": val, "actor": name})
+			x.Log(trace.E{"ev": "ret", "id": id, "xid": xid, "res": "ok", "val": val, "actor": name})
 		}}
 	case "wait":
 		return sched.Op{Label: label, Do: func() {
@@ -178,8 +181,8 @@ func (d *ccDriver) opFunc(c *ccClient, op ccOp) sched.Op {
 				c.errCh = make(chan error, 4)
 				errCh = c.errCh
 			}
-			x.Log(trace.E{"ev": "call", "id": id, "op": "wait", "kind": op.Kind, "old": op.Old, "k": op.K, "ve": ve, "actor": name})
-			c.waitID = id
+			x.Log(trace.E{"ev": "call", "id": id, "xid": xid, "op": "wait", "kind": op.Kind, "old": op.Old, "k": op.K, "ve": ve, "actor": name})
+			c.waitID, c.waitX = id, xid
 			var val int
 			var err error
 			hasVal := true
@@ -203,7 +206,7 @@ func (d *ccDriver) opFunc(c *ccClient, op ccOp) sched.Op {
 					case v >= op.K:
 						res, ok = "t", true
 					}
-					x.Log(trace.E{"ev": "valid", "id": id, "v": v, "res": res})
+					x.Log(trace.E{"ev": "valid", "id": id, "xid": xid, "v": v, "res": res})
 					return ok, e
 				}, errCh)
 			case "validnil":
@@ -211,7 +214,7 @@ func (d *ccDriver) opFunc(c *ccClient, op ccOp) sched.Op {
 			default:
 				panic("bad wait kind " + op.Kind)
 			}
-			c.waitID = 0
+			c.waitID, c.waitX = 0, 0
 			res := ""
 			switch {
 			case err == nil:
@@ -228,7 +231,7 @@ func (d *ccDriver) opFunc(c *ccClient, op ccOp) sched.Op {
 			default:
 				res, val = "other:"+err.Error(), -1
 			}
-			x.Log(trace.E{"ev": "ret", "id": id, "res": res, "val": val, "actor": name})
+			x.Log(trace.E{"ev": "ret", "id": id, "xid": xid, "res": res, "val": val, "actor": name})
 		}}
 	}
 	panic("bad op " + op.Op)
@@ -239,6 +242,18 @@ func (d *ccDriver) blockedIDs() []int {
 	for _, c := range d.cl {
 		if c.waitID != 0 && d.x.Blocked(c.c) {
 			out = append(out, c.waitID)
+		}
+	}
+	sort.Ints(out)
+	return out
+}
+
+// blockedXIDs is blockedIDs in the X spec's ids.
+func (d *ccDriver) blockedXIDs() []int {
+	out := []int{}
+	for _, c := range d.cl {
+		if c.waitID != 0 && d.x.Blocked(c.c) {
+			out = append(out, c.waitX)
 		}
 	}
 	sort.Ints(out)
@@ -264,9 +279,9 @@ func (d *ccDriver) Run(x *sched.Exec, raw json.RawMessage) json.RawMessage {
 	}
 	x.Log(trace.E{"ev": "init", "val": sc.Init, "m": sc.M})
 	for i, prog := range sc.Clients {
-		c := &ccClient{c: x.NewClient(fmt.Sprintf("c%d", i+1))}
-		for _, op := range prog {
-			c.c.Prog = append(c.c.Prog, d.opFunc(c, op))
+		c := &ccClient{c: x.NewClient(fmt.Sprintf("c%d", i+1)), idx: i}
+		for pi, op := range prog {
+			c.c.Prog = append(c.c.Prog, d.opFunc(c, pi, op))
 		}
 		d.cl = append(d.cl, c)
 	}
@@ -281,7 +296,7 @@ func (d *ccDriver) Run(x *sched.Exec, raw json.RawMessage) json.RawMessage {
 			if c.op.C && !c.canc {
 				ms = append(ms, sched.Move{Label: "cancel:" + c.c.Name, Do: func() {
 					c.canc = true
-					x.Log(trace.E{"ev": "cancel", "id": c.waitID})
+					x.Log(trace.E{"ev": "cancel", "id": c.waitID, "xid": c.waitX})
 					c.cancel()
 				}})
 			}
@@ -295,7 +310,7 @@ func (d *ccDriver) Run(x *sched.Exec, raw json.RawMessage) json.RawMessage {
 				}
 				ms = append(ms, sched.Move{Label: "fire:" + c.c.Name + ":" + what, Do: func() {
 					c.fired[what] = true
-					x.Log(trace.E{"ev": "fire", "id": c.waitID, "what": what})
+					x.Log(trace.E{"ev": "fire", "id": c.waitID, "xid": c.waitX, "what": what})
 					switch what {
 					case "err":
 						c.errCh <- c.errVal
@@ -318,12 +333,16 @@ func (d *ccDriver) Run(x *sched.Exec, raw json.RawMessage) json.RawMessage {
 	observe := func() {
 		// library-quiescent (nothing parked at a hook): report who is blocked, once per change
 		if len(x.ParkedActors()) == 0 && x.T.Events() != d.lastObs {
-			x.Log(trace.E{"ev": "quiet", "blk": d.blockedIDs()})
+			x.Log(trace.E{"ev": "quiet", "blk": d.blockedIDs(), "xblk": d.blockedXIDs()})
 		}
 		d.lastObs = x.T.Events()
 	}
 	x.Loop(moves, observe, 90)
 
+	if x.LogSteps {
+		// X-level trace validation ends here: the cancellations of the teardown are not controller steps
+		x.Log(trace.E{"ev": "teardown"})
+	}
 	// teardown, still one critical section per step: no new calls, cancel every waiter in
 	// flight, grant until nothing is parked; then read the final value
 	for _, c := range d.cl {
@@ -334,7 +353,7 @@ func (d *ccDriver) Run(x *sched.Exec, raw json.RawMessage) json.RawMessage {
 		for _, c := range d.cl {
 			if c.waitID != 0 && !c.canc {
 				c.canc = true
-				x.Log(trace.E{"ev": "cancel", "id": c.waitID})
+				x.Log(trace.E{"ev": "cancel", "id": c.waitID, "xid": c.waitX})
 				c.cancel()
 			}
 		}
@@ -348,8 +367,8 @@ func (d *ccDriver) Run(x *sched.Exec, raw json.RawMessage) json.RawMessage {
 	}
 	if idle {
 		id := d.newID()
-		x.Log(trace.E{"ev": "call", "id": id, "op": "get", "actor": "ctl"})
-		x.Log(trace.E{"ev": "ret", "id": id, "res": "ok", "val": d.ctr.GetValue(), "actor": "ctl"})
+		x.Log(trace.E{"ev": "call", "id": id, "xid": 0, "op": "get", "actor": "ctl"})
+		x.Log(trace.E{"ev": "ret", "id": id, "xid": 0, "res": "ok", "val": d.ctr.GetValue(), "actor": "ctl"})
 	}
 	return out
 }
